@@ -21,6 +21,8 @@ type Case struct {
 	Info gen.Info
 }
 
+func (c *Case) name() string { return c.Name }
+
 // lcg fills b with incompressible-looking bytes.
 func lcg(b []byte, seed uint32) {
 	x := seed*2654435761 + 12345
